@@ -4,6 +4,7 @@ CFG = {
     "batches": lambda tier, seed: [("exhaustive", "-mode exhaustive -tier %s" % tier),
                                    ("random", "-mode random -tier %s" % tier),
                                    ("cascade", "-mode cascade -tier %s" % tier),
+                                   ("large", "-mode large -tier %s" % tier),
                                    ("maxdeg", "-mode maxdeg -tier %s" % tier)],
     "signatures": {},
     "rule": "3 implementations (indexed binary/binomial/Fibonacci) x 5 comparators (library -1/0/1 min and max; magnitude-returning a-b, 3(a-b), b-a). exhaustive: every history over "
@@ -14,7 +15,12 @@ CFG = {
             "index pools, 1/14 invalid indices, duplicate-heavy and wide key ranges, mixed / fill-then-churn / delete-heavy "
             "phases up to 200 steps. cascade: fill, one Delete, then key decreases below the minimum / DeleteIndex of deep nodes "
             "(marks, cascading cuts, promote/demote chains); thinning: one big tree (2^k+1 inserts + Delete, k=3..6), then DeleteIndex / decrease of "
-            "the deepest nodes at depth >= 2 read from the hook layout of a scratch Fibonacci heap, Deletes interleaved (degree bound). maxdeg: indexedFibonacci.maxDegree (float) against the model's exact value for "
+            "the deepest nodes at depth >= 2 read from the hook layout of a scratch Fibonacci heap, Deletes interleaved (degree bound). "
+            "large: nearly full big heaps - capacities 15, 31, 63, 127, 255, 500, 1000 (thorough also 511, 1023, 2000), a random 80-100 % of the "
+            "indices filled, then 1500..20000 steps (30000 thorough) of 85 % key-lowering ChangeKey (random decrease, or below the current extremum), "
+            "10 % Delete + re-Insert of the freed index, 5 % DeleteIndex + re-Insert, sampled Peek/Size/PeekIndex/ContainsKey, final query sweep and full drain; "
+            "all three heaps on the same history, one of the five comparators drawn per capacity; capacities above 300 are refereed by the extracted specification only (PANIC/HANG and every "
+            "answer the index map forbids are api; the exact model/layout comparison is skipped there, counter cases_spec_only). maxdeg: indexedFibonacci.maxDegree (float) against the model's exact value for "
             "n <= 30000, around every Fibonacci/Lucas number and random n <= 10^6 (all n <= 10^6 in the thorough tier). Every result is refereed by the extracted specification "
             "(api) and compared exactly with the extracted model incl. the hook layout (fidelity). A case is non-trivial when "
             "at least two successful ChangeKey/DeleteIndex happened on a heap holding >= 3 entries; distinct = distinct case lines.",
